@@ -107,19 +107,20 @@ theorem positional (b d : Nat) (t : List Nat) : valDigits b (d :: t) = d * b ^ t
 /-! ### the round trip at the level of TEXT: the lexer run on the characters the renderer prints
 
 `(b, p)` ranges over the renderings fend can read back by itself: binary / octal / hexadecimal with their `0b` / `0o` / `0x`
-prefix and plain decimal. -/
+prefix, plain decimal, and EVERY base 2..36 with its `n#` prefix. -/
 
-def Readable (b : Nat) (p : Pfx) : Prop := ((b = 2 ∨ b = 8 ∨ b = 16) ∧ p = .zero) ∨ (b = 10 ∧ p = .plain)
+def Readable (b : Nat) (p : Pfx) : Prop := ((b = 2 ∨ b = 8 ∨ b = 16) ∧ p = .zero) ∨ (b = 10 ∧ p = .plain) ∨ ((2 ≤ b ∧ b ≤ 36) ∧ p = .custom)
 
 /-- the text printed for an integer is read back, character by character, as that integer -/
 theorem integer_text_roundtrip (b : Nat) (p : Pfx) (hr : Readable b p) (sep th : Char) (hs : SepOK sep th) (n : Nat) :
     ∃ parts, parseNumber sep th (fmtRat ⟨b, p, .exactFloat, sep⟩ false n 1).1 = .ok (.num parts [], p) ∧ litValue parts = (n : Rat) := by
   have htxt : (fmtRat ⟨b, p, .exactFloat, sep⟩ false n 1).1 = (fmtNat p b n none).1 := by simp [fmtRat, signed]
   rw [htxt]
-  rcases hr with ⟨hb, rfl⟩ | ⟨rfl, rfl⟩
+  rcases hr with ⟨hb, rfl⟩ | ⟨rfl, rfl⟩ | ⟨⟨h2, h36⟩, rfl⟩
   · have hb2 : 2 ≤ b := by rcases hb with rfl | rfl | rfl <;> omega
     exact ⟨_, scan_zero_prefix b hb sep th hs n, (integer_roundtrip b n hb2).1⟩
   · exact ⟨_, scan_plain_decimal sep th hs n, (integer_roundtrip 10 n (by omega)).1⟩
+  · exact ⟨_, scan_custom_prefix b h2 h36 sep th hs n, (integer_roundtrip b n h2).1⟩
 
 /-- the text printed for a non-terminating fraction, `I.A(B)`, is what `fmtRat` produces … -/
 theorem recurring_text (b : Nat) (p : Pfx) (hb : 2 ≤ b) (sep : Char) (num den mu lam : Nat) (hden1 : den ≠ 1)
@@ -136,7 +137,11 @@ theorem recurring_text_roundtrip (b : Nat) (p : Pfx) (hr : Readable b p) (sep th
     (h : findCycle b den (num % den) = some (mu, lam)) :
     ∃ parts, parseNumber sep th (fmtRat ⟨b, p, .exactFloat, sep⟩ false num den).1 = .ok (.num parts [], p) ∧
       litValue parts = (num : Rat) / den := by
-  have hb2 : 2 ≤ b := by rcases hr with ⟨hb, _⟩ | ⟨rfl, _⟩; rcases hb with rfl | rfl | rfl <;> omega; omega
+  have hb2 : 2 ≤ b := by
+    rcases hr with ⟨hb, _⟩ | ⟨rfl, _⟩ | ⟨⟨h2, _⟩, _⟩
+    · rcases hb with rfl | rfl | rfl <;> omega
+    · omega
+    · exact h2
   obtain ⟨hlam, _⟩ := findCycle_spec b den (num % den) mu lam h
   have hr0 : num % den < den := Nat.mod_lt _ hden
   have ha := digitsFrom_lt b den (num % den) (by omega) hr0 mu
@@ -147,9 +152,10 @@ theorem recurring_text_roundtrip (b : Nat) (p : Pfx) (hr : Readable b p) (sep th
     rw [hnil] at this; simp at this; omega
   rw [recurring_text b p hb2 sep num den mu lam hden1 hnt h]
   have hval := rendered_recurring_roundtrip b num den mu lam hb2 hden h
-  rcases hr with ⟨hb, rfl⟩ | ⟨rfl, rfl⟩
+  rcases hr with ⟨hb, rfl⟩ | ⟨rfl, rfl⟩ | ⟨⟨h2, h36⟩, rfl⟩
   · exact ⟨_, scan_zero_prefix_recurring b hb sep th hs _ _ _ ha hc hcne, hval⟩
   · exact ⟨_, by simpa [prefixChars] using scan_plain_decimal_recurring sep th hs _ _ _ ha hc hcne, hval⟩
+  · exact ⟨_, scan_custom_prefix_recurring b h2 h36 sep th hs _ _ _ ha hc hcne, hval⟩
 
 /-- the text printed for a terminating fraction, `I.A`: integer part, separator, the long-division digits up to the vanishing
 remainder without trailing zeros — read back, character by character, as exactly `num/den`.  `k` is the number of steps after
@@ -159,7 +165,11 @@ theorem terminating_text_roundtrip (b : Nat) (p : Pfx) (hr : Readable b p) (sep 
     (hk : remAt b den (num % den) k = 0) (hbefore : ∀ j, j < k → remAt b den (num % den) j ≠ 0) (hfuel : k ≤ den + 1) :
     ∃ parts, parseNumber sep th (fmtRat ⟨b, p, .exactFloat, sep⟩ false num den).1 = .ok (.num parts [], p) ∧
       litValue parts = (num : Rat) / den := by
-  have hb2 : 2 ≤ b := by rcases hr with ⟨hb, _⟩ | ⟨rfl, _⟩; rcases hb with rfl | rfl | rfl <;> omega; omega
+  have hb2 : 2 ≤ b := by
+    rcases hr with ⟨hb, _⟩ | ⟨rfl, _⟩ | ⟨⟨h2, _⟩, _⟩
+    · rcases hb with rfl | rfl | rfl <;> omega
+    · omega
+    · exact h2
   have hft := fmtNat_text p b (num / den) hb2
   -- the text
   have hloop := nonrec_text b den (num % den) .all (fun m => by simp) sep (prefixChars p b ++ (natDigits b (num / den)).map digitChar)
@@ -192,9 +202,10 @@ theorem terminating_text_roundtrip (b : Nat) (p : Pfx) (hr : Readable b p) (sep 
     rw [← hds] at h1
     simp only [litValue, valDigits_natDigits b _ hb2, digitsFrom_length] at h1 ⊢
     rw [← h1, stripZ_value b hb2 ds, hds, digitsFrom_length]
-  rcases hr with ⟨hb, rfl⟩ | ⟨rfl, rfl⟩
+  rcases hr with ⟨hb, rfl⟩ | ⟨rfl, rfl⟩ | ⟨⟨h2, h36⟩, rfl⟩
   · exact ⟨_, scan_zero_prefix_terminating b hb sep th hs _ _ hlt hsne, hval⟩
   · exact ⟨_, by simpa [prefixChars] using scan_plain_decimal_terminating sep th hs _ _ hlt hsne, hval⟩
+  · exact ⟨_, scan_custom_prefix_terminating b h2 h36 sep th hs _ _ hlt hsne, hval⟩
 
 -- the scanner and the renderer on concrete literals / values (kernel-evaluated; these are tests, not the theorems)
 example : (fmtRat ⟨10, .plain, .exactFloat, '.'⟩ false 1 6).1 = "0.1(6)".toList := by decide +kernel
